@@ -154,6 +154,10 @@ pub enum M<'s> {
     V(usize),
     #[regex("v[0-9]*$", cb_unit, priority = 50)]
     VEnd,
+    #[regex("[r-t]+", cb_val)]
+    Rst(usize),
+    #[regex("rst$", cb_unit, priority = 60)]
+    RstEnd,
 }
 
 /// the same decisions as inline closures, with an error callback
@@ -271,7 +275,7 @@ pub enum Which {
 
 fn has(which: Which, c: u8) -> bool {
     match which {
-        Which::Named => b"abcdefghijklmnopuvwxyz".contains(&c),
+        Which::Named => b"abcdefghijklmnopuvwxyzrst".contains(&c),
         Which::Closures => b"abcdefgijopwy".contains(&c),
     }
 }
@@ -297,6 +301,20 @@ pub fn reference(input: &str, which: Which) -> (Vec<(String, usize, usize)>, Log
                 e += 1;
             }
             items.push((default_err(p, e), p, e));
+            p = e;
+            continue;
+        }
+        if which == Which::Named && matches!(c, b'r' | b's' | b't') {
+            let mut e = p;
+            while e < b.len() && matches!(b[e], b'r' | b's' | b't') {
+                e += 1;
+            }
+            log.push((p, e, input[p..e].to_string()));
+            if &input[p..e] == "rst" && e == b.len() {
+                items.push(("Ok(RstEnd)".into(), p, e));
+            } else {
+                items.push((format!("Ok(Rst({}))", e - p), p, e));
+            }
             p = e;
             continue;
         }
@@ -404,7 +422,7 @@ fn fnv(h: &mut u64, s: &str) {
 
 pub fn run(tier: &str, rep: &mut Report) {
     let l = if tier == "thorough" { 4 } else { 3 };
-    let named_alpha: Vec<&str> = vec!["a", "b", "c", "d", "e", "f", "g", "h", "i", "j", "k", "l", "m", "n", "o", "p", "u", "v", "w", "x", "y", "z", "0", "1", "7", "q", " ", "!", "é"];
+    let named_alpha: Vec<&str> = vec!["a", "b", "c", "d", "e", "f", "g", "h", "i", "j", "k", "l", "m", "n", "o", "p", "u", "v", "w", "x", "y", "z", "0", "1", "7", "q", " ", "!", "é", "r", "s", "t"];
     let clos_alpha: Vec<&str> = vec!["a", "b", "c", "d", "e", "f", "g", "i", "j", "o", "p", "w", "y", "0", "1", " ", "!", "é", "h"];
     let twin_alpha: Vec<&str> = vec!["a", "g", "i", "o", "0", "1", " ", "!"];
     rep.bounds.insert("rule".into(), format!("real #[derive(Logos)] enums carrying callbacks of every documented return type (named functions: enum M, 19 variants + 4 skip callbacks; closures + error callback: enum C); inputs: all strings of <= {l} symbols over alphabets of {} / {} symbols, plus digit runs up to 5; decisions are pure functions of the matched length; oracle: a hand-written reference (first letter + digits) + the documented table; checked: item stream, spans, callback log (one invocation per winning match, none for losers), Skip == skip pattern (twin enum), bump extends the item. Non-trivial = the expected stream invokes at least one callback whose outcome is not a plain Emit, or an error, or a skip.", named_alpha.len(), clos_alpha.len()));
@@ -458,6 +476,8 @@ pub fn run(tier: &str, rep: &mut Report) {
             }
         }
     }
+    // the end-anchored pairs (v / vEnd, [r-t]+ / rst$) on longer inputs over their own alphabet
+    strings(&["r", "s", "t", " ", "v", "1", "a"], l + 2, &mut |s| check(rep, "M", s, observe::<M>(s), reference(s, Which::Named), &mut digest));
     for n in 1..=9 {
         for tail in ["", "a", " u", "é", "a1u"] {
             let s = format!("{}{tail}", "u".repeat(n));
